@@ -239,7 +239,12 @@ def impl_apply(s, op, h=None):
         elif ckey == "tags":
             parent.create_tag(name, "t", op[4])
         elif ckey == "multi_tags":
-            parent.create_multi_tag(name, "t", parent.data_arrays[op[4]])
+            if isinstance(op[4], dict):
+                # positions (and extents) given as plain values: the library creates "<name>-positions" /
+                # "<name>-extents" arrays on the way
+                parent.create_multi_tag(name, "t", op[4]["positions"], extents=op[4].get("extents"))
+            else:
+                parent.create_multi_tag(name, "t", parent.data_arrays[op[4]])
         elif ckey == "props":
             parent.create_property(name, op[4])
         else:
@@ -348,7 +353,22 @@ def model_apply(m, op):
         elif ckey == "tags":
             lst.append(t_tag(m, name, "t", op[4]))
         elif ckey == "multi_tags":
-            lst.append(t_mtag(m, name, "t", mkref(pick(parent["data_arrays"], op[4]))))
+            if isinstance(op[4], dict):
+                autos = [("positions", op[4]["positions"])] + ([("extents", op[4]["extents"])] if op[4].get("extents") is not None else [])
+                for role, _v in autos:
+                    if pick(parent["data_arrays"], "%s-%s" % (name, role)) is not None:
+                        raise Refused("DuplicateName")
+                made = {}
+                for role, vals in autos:
+                    a = t_array(m, "%s-%s" % (name, role), "t-%s" % role, np.array(vals, dtype=np.float64))
+                    parent["data_arrays"].append(a)
+                    made[role] = a
+                mt = t_mtag(m, name, "t", mkref(made["positions"]))
+                if "extents" in made:
+                    mt["extents"] = mkref(made["extents"])
+                lst.append(mt)
+            else:
+                lst.append(t_mtag(m, name, "t", mkref(pick(parent["data_arrays"], op[4]))))
         elif ckey == "props":
             lst.append(t_prop(m, name, op[4]))
     elif kind == "create_feature":
@@ -562,6 +582,9 @@ def _enabled(m, cfg):
                     ops.append(["create", path, "tags", nm, [1.0, 2.0]])
                     if n["data_arrays"]:
                         ops.append(["create", path, "multi_tags", nm, n["data_arrays"][0]["name"]])
+                    if not thin or nm == names[-1]:
+                        ops.append(["create", path, "multi_tags", nm, {"positions": [[0.0, 1.0], [1.0, 1.5]], "extents": [[1.0, 0.5], [0.5, 0.5]]}])
+                        ops.append(["create", path, "multi_tags", nm, {"positions": [1.0, 2.5]}])
             arrays = [a["name"] for a in n["data_arrays"]]
             srcs = [p for p, x in ents if x.get("$k") == "Source" and p[:2] == path]
             for key in ("data_arrays", "tags", "multi_tags", "groups", "sources", "data_frames"):
